@@ -33,10 +33,11 @@ enum Probe
 	P_LAW_INTRUDERS,
 	P_VPOISSON,
 	P_PRISTINE,
+	P_ABORTED,
 	P_KIND0,
 	P_NPROBES = P_KIND0 + 9
 };
-const char* PROBE_NAMES[] = {"sampler_ops", "replay_from_state_checks", "poisson_mean_above_500", "poisson_mean_above_1000", "metropolis_bounded_domain_calls", "rejection_loop_10_or_more_iterations", "rejection_inefficiency_warning_branch", "fault_generator_edge_seed(0,1,5489,2^32-1)", "fault_generator_discard", "op_started_from_used_generator_state", "metropolis_grid_triples", "law_pools", "law_samples", "law_interleaved_intruder_calls", "vector_poisson_ops", "comparisons_with_a_pristine_process", "kind_uniform", "kind_gauss", "kind_poisson", "kind_inverse_transform", "kind_rejection", "kind_rejection_2d", "kind_metropolis", "kind_metropolis_2d", "kind_vector_poisson"};
+const char* PROBE_NAMES[] = {"sampler_ops", "replay_from_state_checks", "poisson_mean_above_500", "poisson_mean_above_1000", "metropolis_bounded_domain_calls", "rejection_loop_10_or_more_iterations", "rejection_inefficiency_warning_branch", "fault_generator_edge_seed(0,1,5489,2^32-1)", "fault_generator_discard", "op_started_from_used_generator_state", "metropolis_grid_triples", "law_pools", "law_samples", "law_interleaved_intruder_calls", "vector_poisson_ops", "comparisons_with_a_pristine_process", "fault_user_callback_throws_mid_call", "kind_uniform", "kind_gauss", "kind_poisson", "kind_inverse_transform", "kind_rejection", "kind_rejection_2d", "kind_metropolis", "kind_metropolis_2d", "kind_vector_poisson"};
 enum Metric
 {
 	M_DKW,	 // worst D / bound
@@ -187,12 +188,21 @@ long double xy_sum_cdf(long double s) { return s <= 0 ? 0 : s >= 2 ? 1 : s <= 1 
 struct Counters
 {
 	uint64_t rej_iters = 0, metro_outside = 0;
+	uint64_t abort_at = 0;	 // fault: the user's density / CDF throws at its abort_at-th evaluation
+	uint64_t evals	  = 0;
+};
+struct AbortCall
+{
 };
 
 // Executes one sampler call; returns the flattened outputs.
 std::vector<double> draw(std::mt19937& G, const Spec& s, Counters* cnt = nullptr)
 {
 	const std::vector<double>& p = s.p;
+	auto tick = [cnt]() {
+		if(cnt && cnt->abort_at && ++cnt->evals == cnt->abort_at)
+			throw AbortCall();
+	};
 	switch(s.kind)
 	{
 		case 0: return {libphysica::Sample_Uniform(G, p[0], p[1])};
@@ -209,7 +219,10 @@ std::vector<double> draw(std::mt19937& G, const Spec& s, Counters* cnt = nullptr
 			double x0 = p[2], x1 = p[3];
 			int sh = s.family;
 			double a = p[0], b = p[1];
-			std::function<double(double)> cdf = [=](double x) { return (double) shape_cdf(sh, a, b, (x - x0) / (x1 - x0)); };
+			std::function<double(double)> cdf = [=](double x) {
+				tick();
+				return (double) shape_cdf(sh, a, b, (x - x0) / (x1 - x0));
+			};
 			return {libphysica::Inverse_Transform_Sampling(cdf, x0, x1, G)};
 		}
 		case 4:
@@ -221,6 +234,7 @@ std::vector<double> draw(std::mt19937& G, const Spec& s, Counters* cnt = nullptr
 			uint64_t calls						= 0;
 			double scale						= p.size() > 5 ? p[5] : 1.0;   // the density need not be normalised: any positive scale
 			std::function<double(double)> pdf = [&, sh, a, b, x0, x1, scale](double x) {
+				  tick();
 				  calls++;
 				  return scale * shape_pdf(sh, a, b, (x - x0) / (x1 - x0));
 			};
@@ -237,6 +251,7 @@ std::vector<double> draw(std::mt19937& G, const Spec& s, Counters* cnt = nullptr
 			double a = p[0], b = p[1];
 			uint64_t calls								 = 0;
 			std::function<double(double, double)> pdf = [&, fam, a, b, x0, x1, y0, y1](double x, double y) {
+				 tick();
 				 calls++;
 				 double tx = (x - x0) / (x1 - x0), ty = (y - y0) / (y1 - y0);
 				 return fam == 0 ? tx + ty : shape_pdf(1, a, b, tx) * shape_pdf(0, 0.5, 0, ty);
@@ -254,6 +269,7 @@ std::vector<double> draw(std::mt19937& G, const Spec& s, Counters* cnt = nullptr
 			int fam = s.family;
 			uint64_t outside				  = 0;
 			std::function<double(double)> pdf = [&, fam, m, w, d0, d1](double x) -> double {
+				tick();
 				if(fam == 0)
 				{
 					double z = (x - m) / w;
@@ -283,6 +299,7 @@ std::vector<double> draw(std::mt19937& G, const Spec& s, Counters* cnt = nullptr
 			double mx = p[2], wx = p[3], my = p[4], wy = p[5];
 			double x0 = p.size() > 9 ? p[6] : 0, x1 = p.size() > 9 ? p[7] : 1, y0 = p.size() > 9 ? p[8] : 0, y1 = p.size() > 9 ? p[9] : 1;
 			std::function<double(double, double)> pdf = [=](double x, double y) -> double {
+				tick();
 				if(fam == 0)
 				{
 					double zx = (x - mx) / wx, zy = (y - my) / wy;
@@ -845,6 +862,29 @@ struct Exec
 				ctx.probe(P_DISCARD);
 				fresh_state = false;
 			}
+			else if(o.kind == "abort")
+			{
+				// cancellation fault: a sampler call whose density/CDF throws half-way; the generator is left wherever the call got
+				// to, and every later op must behave as usual from that state
+				Op inner;
+				Spec s;
+				if(Op::parse(o.s, inner) && op_spec(inner, s) && s.kind >= 3 && s.kind <= 7)
+				{
+					Counters c;
+					c.abort_at = (uint64_t) std::max(1ll, o.i.empty() ? 1 : o.i[0]);
+					ctx.probe(P_ABORTED);
+					try
+					{
+						std::vector<double> out = draw(G, s, &c);
+						ctx.log.u64(out.size());   // the call finished before the fault point was reached
+					}
+					catch(AbortCall&)
+					{
+						ctx.log.u64(0xAB07ull);
+					}
+					fresh_state = false;
+				}
+			}
 			else if(o.kind == "law")
 				exec_law(o);
 			else if(o.kind == "chain")
@@ -1120,6 +1160,13 @@ struct Gen
 					s.sample = t.sample, s.thin = t.thin, s.burn = t.burn;
 				}
 				s.pristine = r.chance(0.05) ? 1 : 0;
+				if(s.kind >= 3 && s.kind <= 7 && r.chance(0.04))
+				{
+					Op ab("abort");
+					ab.i = {(long long) r.irange(1, s.kind >= 6 ? 40 : 6)};
+					ab.s = spec_op(s).text();
+					p.ops.push_back(ab);
+				}
 				p.ops.push_back(spec_op(s));
 			}
 		}
